@@ -62,6 +62,7 @@ fn main() {
                 "cli" => harness::e6::replay(&case),
                 "bisim" => harness::props2::replay_bisim(&case),
                 "roundtrip" => harness::props2::replay_roundtrip(&case),
+                "shifty" => harness::props2::replay_shifty(&case),
                 e => {
                     eprintln!("unknown engine {e}");
                     std::process::exit(2);
